@@ -87,41 +87,55 @@ THEOREMS = [
     "BeyondVerif.C02W.full_key_memo_sound",
 ]
 LEVEL_TEXT = ("Lean theorems over R about a model of beyond/frames whose formulas (rot1/2/3, precession/nutation arguments, GMST, ERA, rate, CIO matrix, "
-              "constant matrices, station matrix) are translated from the Python AST on every run: every rot and every product of rots is a proper rotation "
-              "for all angles, the CIO matrix for all X^2+Y^2<1, the constant matrices are orthonormal to 1e-15; expand(R,w)(r,v) = (R r, R v - w x R r) and its "
-              "inverse; norms preserved; d/dt(R(t) r(t)) equals the velocity block for rate=(0,0,-theta') (HasDerivAt, all differentiable theta, r); "
-              "A->B->C = A->C and A->B->A = 1 for the convert_to loop along every link history grown leaf by leaf (induction; any carrier with an "
-              "associative product), instantiated for the model's orientConvert with paths from the C20 routing model. "
+              "constant matrices, station matrix, to_qsw / to_tnw, the guard of the kinematic terms) AND whose glue (the loops of Orientation.convert_to and Center.convert_to: which element a direct / "
+              "a reverse provider contributes, the order of accumulation; Center._to_parent; Frame.transform: m @ x + offset and the arguments of its two calls) are read from the Python AST on every run. "
+              "Rotations: every rot, every product of rots, the CIO matrix (X^2+Y^2<1), to_local(QSW/TNW).T (pos x vel != 0) are proper rotations; the constant matrices are orthonormal to 1e-15. "
+              "Path independence: A->B->C = A->C and A->B->A = 1 for the convert_to loop along every link history grown leaf by leaf (induction, any associative carrier), UNCONDITIONALLY for the model's "
+              "own edge function (edgesOK_model: EdgesOK assembled from provider_isRotation, const_matrices_invertible, edgeBuiltin_oneDir and a well-formedness condition on stations / orbit-attached orientations). "
+              "Different centres: Center.convert_to is the same loop over the additive algebra of states (centreFold_chain), hence antisymmetric and additive in one target orientation (offset_antisymm, offset_chain), "
+              "and carried by the rotation between two target orientations (offset_retarget); Frame.transform A->B->A = identity and A->B->C = A->C for any frames of the model with different centres AND "
+              "orientations (transform_roundtrip, transform_compose, _model versions without hypothesis on the edges; a concrete station / orbit-attached scenario satisfies every hypothesis). "
+              "Kinematics: for ANY differentiable matrix path R with R' = [w]x R, d/dt(R r) is the velocity block of expand(R, -w) (velocity_is_derivative_general); along a path of rotations w exists "
+              "(angular_velocity_exists); instance for the two Earth-rotation edges; the constant of rate() vs d(GMST)/dt (7.0e-12 .. 7.2e-12 rad/s apart on |T| <= 0.5 century: the precession in right ascension) and vs "
+              "d(ERA)/dt (1e-19 rad/s), LOD factor included; what a rate mismatch and what a provider returning (m, None) for a moving m cost in velocity (rate_mismatch_defect, slow_edge_omitted; MOD->EME2000: "
+              "<= 1.02e-11 rad/s x |r| from the regenerated polynomial). Orbit-attached QSW / TNW frames: d/dt to_local = -[w]x to_local with w = lofRate(p, v, a) for ANY acceleration (lofQsw_derivAt, lofTnw_derivAt), "
+              "so the converted velocity the code returns differs from the derivative of the converted position by exactly w x rho, and equals it iff w x rho = 0 (lof_velocity_defect, lof_velocity_iff; "
+              "two-body: h/r^2 resp. mu h/(r^3 v^2) about W) - the two open findings, quantified; nothing is missing for a reference without propagator (lof_static_no_defect). "
               "History independence: the model of a process carries the memoizer of beyond/utils/memoize.py as a state machine (Memo.run) and the one date-dependent memo "
-              "the frames have (iau1980._nutation_series, keyed since deb035a by (TT century, terms): all the series reads); Memo.sound_iff: a memoized function answers every history "
-              "like the bare function iff its key determines its value; session_history_independent (unconditional): for every history of earlier conversions the result of a conversion "
+              "the frames have (iau1980._nutation_series, keyed since deb035a by (TT century, terms)); session_history_independent (unconditional): for every history of earlier conversions the result of a conversion "
               "is callPure = a function of (instant + EOP record of the date, frame graph, the two frames) alone; Witness: the former key (text of the date) made it false. "
-              "Orbit-attached local orbital frames are in the model as the code builds them (LofSpec: a copy of the reference converted to the parent, at its own date when it has no propagator). "
-              "The hand-written glue (which rot in which order, EOP units, series folds, centres, Frame.transform, the memo) is tied by differential correspondence on HISTORIES of calls "
-              "under five EOP configurations sharing their instants.")
+              "The remaining hand-written glue (which rot in which order, EOP units, series folds, LofSpec, the memo) is tied by differential correspondence on HISTORIES of calls under five EOP configurations sharing their instants.")
 LEVEL_NOTE = ("R -> double gap and time-scale arithmetic (Date -> TT/UT1 centuries; the model is given text + record offsets, reconciled to 2 ulp of the JD with Date.change_scale) are outside the theorems; "
-              "agreement with independent GMST/ERA/precession/nutation/polar motion and IAU1980 vs IAU2010 < 0.1 arcsec are oracle-only; the memo model covers Orientation.convert_to "
+              "agreement with independent GMST/ERA/precession/nutation/polar motion and IAU1980 vs IAU2010 < 0.1 arcsec are oracle-only; the rates of nutation and of the CIO series are bounded only in terms of "
+              "the rates of their angles (RotPath.mul), not numerically; the memo model covers Orientation.convert_to "
               "(Frame.transform histories are compared call by call with the pure model, justified by session_history_independent on histories satisfying its hypothesis); "
-              "Lean kernel + propext/Classical.choice/Quot.sound; py2lean and harness trusted")
-TECHNIQUE = "Lean 4 proof (ring identities, HasDerivAt, induction over link histories and over call histories, decide/norm_num on regenerated tables) + differential correspondence on call sequences"
+              "Lean kernel + propext/Classical.choice/Quot.sound; py2lean, the _Glue reader and the harness trusted")
+TECHNIQUE = "Lean 4 proof (ring identities modulo r^2 = p.p, HasDerivAt, induction over link histories and over call histories, potential argument on a multiplicative and an additive algebra, interval arithmetic with pi to 20 digits, decide/norm_num on regenerated tables) + differential correspondence on call sequences"
 TRUSTED = [
     "harness/py2lean.py: translates rot1/rot2/rot3, _precesion, _nutation arguments, _sideral (1980/2010), rate, _planets, X/Y/s polynomials, precesion_nutation, "
-    "G50/GCRF constant matrices, TopocentricOrientation._m, _geodetic_to_cartesian into Generated/FrameFormulas{F,R}.lean on every run",
-    "harness/props/C02.py extract: list of A_to_B methods of class Orientation (AST) -> Generated/OrientProviders.lean; orientHist from C20's extractor",
+    "G50/GCRF constant matrices, TopocentricOrientation._m, _geodetic_to_cartesian, to_qsw / to_tnw (translate_vec_function) into Generated/FrameFormulas{F,R}.lean on every run",
+    "harness/props/C02.py _Glue: reads the loops of Orientation.convert_to / Center.convert_to, Center._to_parent and Frame.transform from the AST (one statement shape each, anything else is refused) "
+    "-> Generated/FrameGlue.lean; extract: the guard of the kinematic terms of iau1980.equinox (operator and day) -> equinoxKinematic; list of A_to_B methods of class Orientation -> "
+    "Generated/OrientProviders.lean; orientHist from C20's extractor",
     "harness/props/C02.py Scenario: the specification of the frame graph and the independent numpy formulas (QSW/TNW axes, station axes, geodetic coordinates) the model inputs are derived from",
     "harness/props/C02.py indep_record / pure_times: the EOP record of each of the five configurations from an own column parse of the IERS files and an own leap second table; "
     "TT / UT1 of a date from its text and that record with python datetime arithmetic (microseconds)",
-    "lean/templates/Frames.tpl, Mat3.tpl, Model/Chain.lean, Model/Memo.lean (hand-written glue: provider products, EOP units, series folds, convert_to loop, centres, transform, memoizer, "
-    "which routes consult the _nutation memo), tied by the correspondence run",
-    "np.linalg.inv is modelled by the exact inverse (adjugate/determinant, block form); numpy / libm double arithmetic vs R: tolerance 1e-10 relative on matrices",
+    "lean/templates/Frames.tpl, Mat3.tpl, Model/Chain.lean, Model/Memo.lean (hand-written: provider products, EOP units, series folds, lofRate, LofSpec, the routing of the two loops through Node.steps, "
+    "the memoizer, which routes consult the _nutation memo), tied by the correspondence run",
+    "np.linalg.inv is modelled by the exact inverse (adjugate/determinant, block form); numpy / libm double arithmetic vs R: observed agreement a few ulp, tolerance 1e-12 relative on orientation matrices",
     "Node routing model of C20 (Model/Node.lean) for the paths; C20.path_valid_chain",
 ]
 ASSUMPTIONS = [
     "the date enters the model as (TT century, UT1 century, UT1 JD, day number, EOP record, series sums): time-scale conversion is C03's subject",
-    "EOP values are piecewise constant per day (SimpleEopDatabase, by design): Earth-fixed positions jump by up to ~1 m at midnight; the velocity oracle avoids windows straddling a day boundary",
-    "orientConvert_compose / _inverse assume EdgesOK (every provided edge matrix is inverted by T6.inv, no link has providers in both directions); "
-    "provider_isRotation + const_matrices_invertible + providers_match give this for the built-in providers, the assembly into EdgesOK for `edge` is not done in Lean",
-    "cioMat_isRotation needs X^2+Y^2 < 1 (in 1973-2017: < 1e-5)",
+    "EOP values are piecewise constant per day (SimpleEopDatabase, by design): Earth-fixed positions jump by up to ~1 m at midnight; the velocity oracle avoids windows straddling a day boundary; "
+    "within a day polar motion and dX/dY do not move, so nothing is omitted for them by the code's own position map",
+    "edgesOK_model / the _model theorems need X^2+Y^2 < 1 for the CIO matrix (in 1973-2017: < 1e-5) and ExtrasOK: a dynamically registered orientation is a new node (index beyond the built-in names), "
+    "hangs below an orientation created before it and has an invertible matrix (stations: topoMat_isRotation; QSW/TNW: lof_isRotation when pos x vel != 0)",
+    "transform_roundtrip / transform_compose need the centre history grown leaf by leaf, no pair of centres linked in both directions (CLinksOneDir) and every centre link convertible to the orientations "
+    "involved (LinksReach: the orientation graph is connected); all three hold by construction of Center.add_link / orbit2frame / create_station and are shown for a concrete scenario",
+    "the kinematic theorems take the reference of an orbit-attached frame as a twice differentiable point (p' = v, v' = a): true for Kepler / numerical propagation; the analytical J2 propagator's velocity "
+    "is not the derivative of its position (secular drift of the elements) - such arcs are excluded from the lof-rate correspondence",
+    "earth_rate_consistent / precession_omitted_bound hold on |T| <= 0.5 Julian century from J2000 (1950-2050) and for LOD below one day",
     "velocity of body-centred frames (Moon, Sun) depends on the body's own velocity, a +-1 day difference quotient (C18): excluded from the velocity oracle",
     "a Date is created under the configuration it is used under (a Date keeps the record it was created with, change_scale looks the new scale up again: C03)",
     "the axes of a QSW/TNW frame attached to a reference WITHOUT propagator are built from the reference converted to the parent frame at the reference's own date, not at the date of the conversion "
@@ -133,20 +147,24 @@ NOT_COVERED = [
     "(independent numpy formulas evaluated with the independently known EOP record of the current configuration)",
     "IAU-1980 chain vs IAU-2010 chain < 0.1 arcsec: oracle only (106- and ~3000-term series; no theorem)",
     "EOP file readers (Finals, Finals2000A, TaiUtc) on the real IERS files: oracle only (independent column parse)",
-    "d(GMST)/dt vs the constant in rate(): not proved (DESIGN earth_rate_consistent); the oracle's finite-difference check covers it to 1e-3 m/s",
+    "numeric bounds on the rates of the nutation matrix, of the equation of the equinoxes and of the CIO matrix (series with table rows supplied at run time): only the structural bound "
+    "|rate| <= sum of the angle rates (RotPath.mul, slow_edge_omitted); the oracle's finite-difference check covers the total to 1e-3 m/s",
     "iau1980.nutation with eop_correction=True (not used by the frame providers): correspondence (c02nutc: series + the eop_correction tail translated from the source) and oracle; no theorem beyond nutCorrected_of_record",
 ]
 OPEN = [
-    "transform_roundtrip for frames with different centres: only the algebraic core (affine_roundtrip) and the same-centre case are proved; "
-    "the antisymmetry of Center.convert_to across two target orientations is checked by correspondence and oracle only",
-    "EdgesOK for the model's concrete `edge` function is a hypothesis of orientConvert_compose/_inverse (see assumptions)",
-    "velocity_is_derivative is proved for R(t) = rot3(-theta(t)) (the two Earth-rotation edges); the slow precession/nutation/polar-motion rates are omitted by the code by design (5e-5 m/s) and by the theorem",
-    "the memo machine (sessionRun) models Orientation.convert_to; which memo keys a whole Frame.transform touches (centre links, orbit-attached providers converting their reference) is not modelled — "
+    "the two LOF findings stay open in /repo (C02-lof-no-rate-qsw / -tnw): the model follows the code (no rate), lof_velocity_defect states the missing term exactly, the oracle accepts a discrepancy only if it IS "
+    "that term; proposed_fixes/C02-lof-rate.diff (rate from p, v and the measured acceleration; none for a fixed point) makes the velocity oracle pass for every kind of attached frame",
+    "the routing itself (which steps Node.steps returns) is C20's model, used through C20.path_valid_chain: the theorems hold for whatever walk the routing returns, they do not say it is the shortest",
+    "the memo machine (sessionRun) models Orientation.convert_to; which memo keys a whole Frame.transform touches (centre links, orbit-attached providers converting their reference) is not modelled - "
     "irrelevant by session_history_independent (the memo is invisible), so Frame.transform histories are compared call by call",
     "'the reference handed to orbit2frame is left unchanged' and 'a repeated conversion gives the same numbers' hold in the model by construction (conversions are functions of read-only specifications); "
     "for the code they are checked by correspondence and oracle on every kind of reference, not proved about the Python objects",
+    "resolveLofs (how the axes of an orbit-attached orientation are obtained from its reference: LofSpec) is hand-written and tied by correspondence only; the compose / round-trip theorems take the resolved matrices as given extras",
 ]
 RULE = ("correspondence: the real code is driven through HISTORIES of conversions in one process, nothing of the library reset in between: (A1) fresh instants under each of five EOP configurations "
+        "[(A1b) the days around MJD 50506 where the kinematic terms switch on, through PEF<->TOD, ITRF->EME2000, TEME->PEF, GCRF->ITRF; Center.convert_to ALONE (c02cen): centre a -> centre b in the orientation of a third frame, "
+        "then the reverse request, then the same request towards another orientation, on the same centre objects, in every kind of visit; d/dt of the real to_local by Richardson differences along synthetic paths with an "
+        "acceleration in any direction and along arcs of the real Kepler propagator vs the model's -[w]x to_local (c02lofrate); orientation matrices to 1e-12 relative] "
         "(real IERS files through SimpleEopDatabase / zero EOP / EOP missing with policy pass / a second registered database selected by eop.dbname / EopDb.get patched), (A2) the SAME instants under "
         "all five configurations in varying orders, each (configuration, instant) visited repeatedly, with fresh and re-used Date objects and repeated requests — UTC texts "
         "and TAI texts under all five, (A3) a history of Orientation.convert_to calls as ONE request to the model carrying the _nutation_series memo (c02seq), (A4) the same names registered "
@@ -160,7 +178,7 @@ RULE = ("correspondence: the real code is driven through HISTORIES of conversion
         "an exception of the implementation where the model converts is a disagreement; dates 1973-2017 (15 % around the branch day MJD 50506, 10 % beyond the tables); "
         "rtol 1e-10 on matrices, 1e-9 relative on states; non-trivial = source != target. "
         "oracle: A->B->C vs A->C and A->B->A (1e-6 m, 1e-9 m/s + double resolution at the largest distance), orthonormality/det/block form, |r| preserved, "
-        "Richardson central difference (20/40 s) of the converted position vs converted velocity; with the EOP record of the CURRENT configuration known independently (UT1 = text + ut1_utc, TT = text + tai_utc + 32.184 s): "
+        "Richardson central difference (20/40 s) of the converted position vs converted velocity - for an orbit-attached QSW/TNW frame the discrepancy must be zero or exactly -w x rho with w = h/r^2 resp. a.(c x v)/(h v^2) about W (acceleration of the reference measured on its own arc), anything else is family velocity-lof-term:*; the kinematic terms of the equation of the equinoxes isolated (equinox(kinematic=True) - equinox(kinematic=False)) to 1e-12 deg, the switch days every run; with the EOP record of the CURRENT configuration known independently (UT1 = text + ut1_utc, TT = text + tai_utc + 32.184 s): "
         "date.eop = that record, PEF->TOD angle vs GMST82 + independent equation of the equinoxes (own 106-term series, kinematic terms from 1997-02-27) to 1 mas, TIRF->CIRF vs ERA to 1 mas, rate block vs lod, "
         "polar motion 1980/2010 vs x, y, nutation (with and without dPsi/dEps), TEME equinox, precession, CIO X - dX / Y - dY equal across configurations — on fresh instants (matrix level) and on the same "
         "instants under all five configurations in varying orders through StateVector.copy (family suffix :after-other-configuration); 1980 vs 2010 < 0.1 arcsec, EOP reader vs independent parse, attached-frame "
